@@ -24,8 +24,12 @@ mod extras {
         fn size_hint(&self) -> (usize, Option<usize>) { (self.lo, self.hi) }
     }
 
-    pub fn extras_probe(r: &mut Rng) -> Vec<String> {
+    /// returns (monitor notes, trace line for the Coq model when the operation is modelled)
+    pub fn extras_probe(r: &mut Rng) -> (Vec<String>, Option<String>) {
         let mut notes: Vec<String> = vec![];
+        let mut cline: Option<String> = None;
+        let list = |v: &[u32]| v.iter().map(|x| x.to_string()).collect::<Vec<_>>().join(",");
+        let minus = |all: Vec<u32>, gone: &[u32]| -> Vec<u32> { let mut a = all; for g in gone { if let Some(p) = a.iter().position(|x| x == g) { a.remove(p); } } a };
         drops();
         let n = r.range(0, 9) as usize;
         let base = r.below(1000) as u32 * 100;
@@ -38,6 +42,7 @@ mod extras {
         let panic_at = if r.coin(1, 3) { Some(r.below(n as u64 + 1) as usize) } else { None };
         let which = r.below(9);
         let kind = r.below(4);   // 0 BumpVec, 1 MutBumpVec, 2 FixedBumpVec, 3 BumpBox<[T]> where the operation exists
+        let kname = match kind { 1 => "mv", 2 => "fv", _ => "bv" };
         let what = ["into_iter", "splice", "map_in_place", "map", "append", "extend(lying size_hint)", "resize_with", "dedup_by_key", "into_boxed_slice"][which as usize];
         let mut expect_all: Vec<u32> = input.clone();     // every identity that must be dropped exactly once by the end
         let mut fin: Option<Vec<u32>> = None;             // observed final contents (ids), when there is a std counterpart
@@ -61,6 +66,10 @@ mod extras {
                 for _ in 0..kb { if let Some(d) = it.next_back() { yielded.push(d.0); } }
                 let left = it.len();
                 drop(it);
+                let dr = minus(drops(), &yielded);
+                cline = Some(format!("C {kname} into_iter {kf} {kb};in={};ans=;dp=;ex=;fin=;yl={};dr={};uw=0;calls=0", list(&input), list(&yielded), list(&dr)));
+                for x in &dr { XDROPS.with(|d| d.borrow_mut().push(*x)); }
+                for x in &yielded { XDROPS.with(|d| d.borrow_mut().push(*x)); }
                 let mut w: Vec<u32> = vec![];
                 let mut sv: std::collections::VecDeque<u32> = input.iter().copied().collect();
                 for _ in 0..kf { if let Some(x) = sv.pop_front() { w.push(x); } }
@@ -78,6 +87,10 @@ mod extras {
                     let mut sp = v.splice(a..b, repl.iter().map(|i| D(*i)).collect::<Vec<D>>());
                     for _ in 0..take { if let Some(d) = sp.next() { yielded.push(d.0); } }
                 }
+                let dr = minus(drops(), &yielded);
+                cline = Some(format!("C bv splice {a} {b} {take};in={};ans=;dp=;ex={};fin={};yl={};dr={};uw=0;calls=0", list(&input), list(&repl), list(&ids(&v)), list(&yielded), list(&dr)));
+                for x in &dr { XDROPS.with(|d| d.borrow_mut().push(*x)); }
+                for x in &yielded { XDROPS.with(|d| d.borrow_mut().push(*x)); }
                 let mut sv = input.clone();
                 let removed: Vec<u32> = sv.splice(a..b, repl.iter().copied()).collect();
                 if yielded[..] != removed[..yielded.len().min(removed.len())] { notes.push(format!("{what}({a}..{b}): yielded {yielded:?}, std removes {removed:?}")); }
@@ -88,11 +101,23 @@ mod extras {
                 let mut calls = 0usize;
                 let res = catch_unwind(AssertUnwindSafe(|| {
                     let m = v.map_in_place(|d| { let k = calls; calls += 1; if Some(k) == panic_at { panic!("scripted") } let id = d.0; std::mem::forget(d); D(id) });
-                    ids(&m)
+                    let f = ids(&m);
+                    let during = drops();
+                    (f, during)
                 }));
+                let pa = match panic_at { Some(k) => k as i64, None => -1 };
                 match res {
-                    Ok(f) => { fin = Some(f); want = Some(input.clone()); }
-                    Err(_) => {}
+                    Ok((f, during)) => {
+                        let after = drops();   // the mapped vector went out of scope
+                        cline = Some(format!("C {kname} map_in_place {pa};in={};ans=;dp=;ex=;fin={};yl=;dr={};uw=0;calls={calls}", list(&input), list(&f), list(&during)));
+                        for x in during.iter().chain(after.iter()) { XDROPS.with(|d| d.borrow_mut().push(*x)); }
+                        fin = Some(f); want = Some(input.clone());
+                    }
+                    Err(_) => {
+                        let during = drops();
+                        cline = Some(format!("C {kname} map_in_place {pa};in={};ans=;dp=;ex=;fin=;yl=;dr={};uw=1;calls={calls}", list(&input), list(&during)));
+                        for x in &during { XDROPS.with(|d| d.borrow_mut().push(*x)); }
+                    }
                 }
             }),
             3 => {
@@ -110,7 +135,10 @@ mod extras {
                     1 => { let mut o: BumpVec<D, &Bump> = BumpVec::new_in(&other_bump); for i in &repl { o.push(D(*i)); } v.append(o); }
                     _ => { let o = other_bump.alloc_iter(repl.iter().map(|i| D(*i))); v.append(o); }
                 }
-                if !drops().is_empty() { notes.push(format!("{what}: something was dropped while moving elements")); }
+                let during = drops();
+                if !during.is_empty() { notes.push(format!("{what}: something was dropped while moving elements")); }
+                cline = Some(format!("C {kname} append;in={};ans=;dp=;ex={};fin={};yl=;dr={};uw=0;calls=0", list(&input), list(&repl), list(&ids(&v)), list(&during)));
+                for x in &during { XDROPS.with(|d| d.borrow_mut().push(*x)); }
                 let mut sv = input.clone(); sv.extend(repl.iter().copied());
                 fin = Some(ids(&v)); want = Some(sv);
             }),
@@ -155,7 +183,7 @@ mod extras {
             let lost: Vec<u32> = e.iter().filter(|x| !d.contains(x)).copied().collect();
             notes.push(format!("{what} (kind {kind}): drops do not match the elements: dropped twice {twice:?}, never dropped {lost:?}"));
         }
-        notes
+        (notes, cline)
     }
 }
 use extras::extras_probe;
